@@ -298,7 +298,13 @@ func (m *Machine) binop(it *Item, x *ssa.BinOp) Value {
 				if k, ok := bv.Int64(); ok && k >= 0 && k < 63 {
 					return m.normInt(it, x.Type(), c.Bin(sym.OpMul, av, c.IntBig(new(big.Int).Lsh(big.NewInt(1), uint(k)))), "shift")
 				}
-				m.fail("symbolic shift in int mode")
+				// symbolic count: x * 2^k with 2^k an ite chain over k = 0..63 (k >= 64 shifts everything out)
+				m.obligePanic(it, m.slt(bv, m.IntC(0)), "negative shift amount")
+				res := T(m.IntC(0))
+				for k := 63; k >= 0; k-- {
+					res = c.Ite(c.Eq(bv, m.IntC(int64(k))), c.Bin(sym.OpMul, av, c.IntBig(new(big.Int).Lsh(big.NewInt(1), uint(k)))), res)
+				}
+				return m.normInt(it, x.Type(), res, "shift")
 			}
 			return m.normInt(it, x.Type(), c.Bin(sym.OpShl, av, bv), "shift")
 		case token.SHR:
@@ -307,7 +313,17 @@ func (m *Machine) binop(it *Item, x *ssa.BinOp) Value {
 					d := c.IntBig(new(big.Int).Lsh(big.NewInt(1), uint(k)))
 					return c.Bin(sym.OpUDiv, av, d) // floor division == arithmetic shift
 				}
-				m.fail("symbolic shift in int mode")
+				m.obligePanic(it, m.slt(bv, m.IntC(0)), "negative shift amount")
+				var res T
+				if ii.unsigned {
+					res = m.IntC(0)
+				} else {
+					res = c.Ite(m.slt(av, m.IntC(0)), m.IntC(-1), m.IntC(0))
+				}
+				for k := 63; k >= 0; k-- {
+					res = c.Ite(c.Eq(bv, m.IntC(int64(k))), c.Bin(sym.OpUDiv, av, c.IntBig(new(big.Int).Lsh(big.NewInt(1), uint(k)))), res)
+				}
+				return res
 			}
 			if ii.unsigned {
 				return c.Bin(sym.OpLShr, av, bv)
